@@ -154,3 +154,36 @@ fn c19_o1_refund_one() {
 fn c19_o1_refund_one__witness() {
     refund_body(true);
 }
+
+// ---- O19.1d — TokenBucket::new: a fresh bucket holds exactly `max_qps` tokens (the burst), refills at `max_qps` per second and
+// takes the current instant as its reference: nothing above the configured rate can be admitted in the first second.
+fn new_bucket_body(witness: bool) {
+    let q: u32 = kani::any();
+    let s: u64 = kani::any();
+    let n: u32 = kani::any();
+    kani::assume(s <= MAX_GAP_S && n < 1_000_000_000);
+    vs::clock_set(s, n);
+    let b = TokenBucket::new(q);
+    if witness {
+        kani::cover!(q == 7, "a 7 qps bucket");
+        return;
+    }
+    assert!(b.capacity == q, "C19: capacity is the configured rate");
+    assert!(b.tokens == q as f64, "C19: a new bucket starts with exactly `max_qps` tokens");
+    assert!(b.refill_rate == q as f64, "C19: the refill rate is `max_qps` tokens per second");
+    assert!(b.last_refill == vs::instant_at(s, n), "C19: the refill reference of a new bucket is the instant of its creation");
+}
+
+#[kani::proof]
+#[kani::unwind(4)]
+#[kani::stub(std::time::Instant::now, crate::verif_support::instant_now_stub)]
+fn c19_o1_new_bucket() {
+    new_bucket_body(false);
+}
+
+#[kani::proof]
+#[kani::unwind(4)]
+#[kani::stub(std::time::Instant::now, crate::verif_support::instant_now_stub)]
+fn c19_o1_new_bucket__witness() {
+    new_bucket_body(true);
+}
